@@ -20,6 +20,8 @@ type c06Case struct {
 	D    int   `json:"d,omitempty"`
 	Ks   []F64 `json:"ks,omitempty"`
 	Ints bool  `json:"ints,omitempty"` // full grid without the half-integers
+	// distributions evaluated before this one in the same process, in this order (one-process history)
+	Pre []c06Dist `json:"pre,omitempty"`
 }
 
 // k values every grid carries in addition (audit round 2b): -0.0 (an integer: floor(-0) = 0, not "negative"),
@@ -63,13 +65,136 @@ func c06Grid(lo, hi int, intsOnly bool) []float64 {
 	return ks
 }
 
+// c06Dist: a distribution evaluated BEFORE the case's own one in the same harness process (one-process
+// history, seeded C06-7 class: a package-level cache of a per-distribution term under a lossy key shows only
+// when the colliding distribution was evaluated earlier in the process).
+type c06Dist struct {
+	Op int `json:"op"`
+	N  int `json:"n"`
+	P  F64 `json:"p,omitempty"`
+	K  int `json:"k,omitempty"`
+	D  int `json:"d,omitempty"`
+}
+
+func (c c06Dist) check() error {
+	if c.N < 0 || c.N > 5000 {
+		return fmt.Errorf("bad N")
+	}
+	switch c.Op {
+	case 0:
+		if p := float64(c.P); !(p >= 0 && p <= 1) {
+			return fmt.Errorf("bad P")
+		}
+	case 1:
+		if c.N < 2 || c.K < 0 || c.K > c.N || c.D < 0 || c.D > c.N {
+			return fmt.Errorf("bad hypergeometric parameters")
+		}
+	default:
+		return fmt.Errorf("bad op")
+	}
+	return nil
+}
+
+func c06Support(c c06Dist) (int, int) {
+	if c.Op == 0 {
+		return 0, c.N
+	}
+	lo := c.D + c.K - c.N
+	if lo < 0 {
+		lo = 0
+	}
+	hi := c.D
+	if c.K < hi {
+		hi = c.K
+	}
+	return lo, hi
+}
+
+// c06Touch evaluates PMF and CDF of an earlier distribution at the ends and the middle of its support
+// (both CDF branches of the hypergeometric distribution are taken that way); the values are not reported:
+// these distributions are main distributions of other cases.
+func c06Touch(c c06Dist) {
+	lo, hi := c06Support(c)
+	ks := []int{lo - 1, lo, lo + 1, (lo + hi) / 2, (lo+hi)/2 + 1, hi - 1, hi, hi + 1}
+	var d interface {
+		PMF(float64) float64
+		CDF(float64) float64
+	}
+	if c.Op == 0 {
+		d = stats.BinomialDist{N: c.N, P: float64(c.P)}
+	} else {
+		d = stats.HypergeometicDist{N: c.N, K: c.K, Draws: c.D}
+	}
+	for _, k := range ks {
+		d.PMF(float64(k))
+		d.CDF(float64(k))
+	}
+}
+
+// everything one pass observes, as bit patterns (two passes must agree bit for bit)
+type c06Obs struct {
+	hdr    []float64
+	pm, cd []float64
+}
+
+func (a c06Obs) same(b c06Obs) bool {
+	eq := func(x, y []float64) bool {
+		if len(x) != len(y) {
+			return false
+		}
+		for i := range x {
+			if math.Float64bits(x[i]) != math.Float64bits(y[i]) {
+				return false
+			}
+		}
+		return true
+	}
+	return eq(a.hdr, b.hdr) && eq(a.pm, b.pm) && eq(a.cd, b.cd)
+}
+
+func c06Eval(c c06Dist, ks []float64) c06Obs {
+	o := c06Obs{pm: make([]float64, len(ks)), cd: make([]float64, len(ks))}
+	if c.Op == 0 {
+		d := stats.BinomialDist{N: c.N, P: float64(c.P)}
+		lo, hi := d.Bounds()
+		na := d.NormalApprox()
+		o.hdr = []float64{d.Mean(), d.Variance(), na.Mu, na.Sigma, lo, hi, d.Step()}
+		for i, k := range ks {
+			o.pm[i] = d.PMF(k)
+			o.cd[i] = d.CDF(k)
+		}
+	} else {
+		d := stats.HypergeometicDist{N: c.N, K: c.K, Draws: c.D}
+		lo, hi := d.Bounds()
+		o.hdr = []float64{d.Mean(), d.Variance(), lo, hi, d.Step()}
+		for i, k := range ks {
+			o.pm[i] = d.PMF(k)
+			o.cd[i] = d.CDF(k)
+		}
+	}
+	return o
+}
+
+// Status on the line: 0 all calls returned, 2 a call panicked, 3 the two passes differ in some bit
+// (PMF, CDF, Mean ... are functions of the distribution and k: a value that depends on what the process
+// evaluated before is not "the" PMF). Check/C06.v accepts status 0 only. The line carries the values of
+// the SECOND pass (the one with the longer history); each of them is compared with the exact reference.
 func c06Run(raw []byte) (*Line, error) {
 	var c c06Case
 	if err := json.Unmarshal(raw, &c); err != nil {
 		return nil, err
 	}
-	if c.N < 0 || c.N > 5000 {
-		return nil, fmt.Errorf("bad N")
+	main := c06Dist{Op: c.Op, N: c.N, P: c.P, K: c.K, D: c.D}
+	if err := main.check(); err != nil {
+		return nil, err
+	}
+	if len(c.Pre) > 64 {
+		return nil, fmt.Errorf("too many earlier distributions")
+	}
+	for _, q := range c.Pre {
+		if err := q.check(); err != nil {
+			return nil, err
+		}
 	}
 	for _, k := range c.Ks {
 		// finite k of any size (D22: CDF(k >= 2^63) was 0); NaN and +-Inf are outside the comparator
@@ -77,83 +202,49 @@ func c06Run(raw []byte) (*Line, error) {
 			return nil, fmt.Errorf("bad k")
 		}
 	}
+	ks := fromF64s(c.Ks)
+	if len(ks) == 0 {
+		lo, hi := c06Support(main)
+		ks = c06Grid(lo, hi, c.Ints)
+	}
+	var o1, o2 c06Obs
+	pan, _ := catch(func() {
+		for _, q := range c.Pre {
+			c06Touch(q)
+		}
+		o1 = c06Eval(main, ks)
+		for _, q := range c.Pre {
+			c06Touch(q)
+		}
+		o2 = c06Eval(main, ks)
+	})
 	l := &Line{}
-	switch c.Op {
-	case 0:
-		p := float64(c.P)
-		if !(p >= 0 && p <= 1) {
-			return nil, fmt.Errorf("bad P")
+	l.I(6).I(c.Op)
+	switch {
+	case pan:
+		l.I(2)
+		ks = nil
+		n := 5
+		if c.Op == 0 {
+			n = 7
 		}
-		d := stats.BinomialDist{N: c.N, P: p}
-		ks := fromF64s(c.Ks)
-		if len(ks) == 0 {
-			ks = c06Grid(0, c.N, c.Ints)
-		}
-		var mean, vr, lo, hi, step float64
-		var na stats.NormalDist
-		pm := make([]float64, len(ks))
-		cd := make([]float64, len(ks))
-		pan, _ := catch(func() {
-			mean, vr, step = d.Mean(), d.Variance(), d.Step()
-			lo, hi = d.Bounds()
-			na = d.NormalApprox()
-			for i, k := range ks {
-				pm[i] = d.PMF(k)
-				cd[i] = d.CDF(k)
-			}
-		})
-		l.I(6).I(0)
-		if pan {
-			l.I(2)
-			ks = nil
-		} else {
-			l.I(0)
-		}
-		l.I(c.N).F(p).F(mean).F(vr).F(na.Mu).F(na.Sigma).F(lo).F(hi).F(step).I(len(ks))
-		for i, k := range ks {
-			l.F(k).F(pm[i]).F(cd[i])
-		}
-	case 1:
-		if c.N < 2 || c.K < 0 || c.K > c.N || c.D < 0 || c.D > c.N {
-			return nil, fmt.Errorf("bad hypergeometric parameters")
-		}
-		d := stats.HypergeometicDist{N: c.N, K: c.K, Draws: c.D}
-		ks := fromF64s(c.Ks)
-		if len(ks) == 0 {
-			lo := c.D + c.K - c.N
-			if lo < 0 {
-				lo = 0
-			}
-			hi := c.D
-			if c.K < hi {
-				hi = c.K
-			}
-			ks = c06Grid(lo, hi, c.Ints)
-		}
-		var mean, vr, lo, hi, step float64
-		pm := make([]float64, len(ks))
-		cd := make([]float64, len(ks))
-		pan, _ := catch(func() {
-			mean, vr, step = d.Mean(), d.Variance(), d.Step()
-			lo, hi = d.Bounds()
-			for i, k := range ks {
-				pm[i] = d.PMF(k)
-				cd[i] = d.CDF(k)
-			}
-		})
-		l.I(6).I(1)
-		if pan {
-			l.I(2)
-			ks = nil
-		} else {
-			l.I(0)
-		}
-		l.I(c.N).I(c.K).I(c.D).F(mean).F(vr).F(lo).F(hi).F(step).I(len(ks))
-		for i, k := range ks {
-			l.F(k).F(pm[i]).F(cd[i])
-		}
+		o2 = c06Obs{hdr: make([]float64, n)}
+	case !o1.same(o2):
+		l.I(3)
 	default:
-		return nil, fmt.Errorf("bad op")
+		l.I(0)
+	}
+	if c.Op == 0 {
+		l.I(c.N).F(float64(c.P))
+	} else {
+		l.I(c.N).I(c.K).I(c.D)
+	}
+	for _, h := range o2.hdr {
+		l.F(h)
+	}
+	l.I(len(ks))
+	for i, k := range ks {
+		l.F(k).F(o2.pm[i]).F(o2.cd[i])
 	}
 	return l, nil
 }
@@ -214,7 +305,9 @@ func c06Gen(tier string, rng *rand.Rand, emit func(interface{})) {
 		for _, p := range grid {
 			emit(c06Case{Op: 0, N: n, P: F64(p)})
 		}
-		if thorough || n <= 16 || n%5 == 0 {
+		// quick: every N to 16, every 5th to 30, every 10th above (35, 45, 55 dropped in round 2c to pay for (b3):
+		// the same P are there at both ends of the support for N <= 30, and 40, 50, 60 keep the full grid)
+		if thorough || n <= 16 || (n <= 30 && n%5 == 0) || n%10 == 0 {
 			for _, p := range wide {
 				emit(c06Case{Op: 0, N: n, P: F64(p)})
 			}
@@ -302,8 +395,135 @@ func c06Gen(tier string, rng *rand.Rand, emit func(interface{})) {
 	for _, p := range []float64{0, 1, 0.5, 1.0 / 64, 63.0 / 64} {
 		emit(c06Case{Op: 0, N: 1000, P: F64(p), Ks: c06SampleKs(rng, 0, 1000, 1000*p, math.Sqrt(1000*p*(1-p)), 12)})
 	}
+	// (b3) P next to 0 and 1 (seeded C06-6 class: BetaInc treating x within some eps of an end point as the
+	// end point, so that the binomial CDF collapses to 0/1: an absolute error of about N*min(P,1-P), visible
+	// at 1e-10 only where N*min(P,1-P) > 1e-10). The exact reference has N*e bits for P = a/2^e and costs
+	// ~e*N^2 (2.4 s at N = 101, P = 1e-12; 8 s at N = 200), so N is chosen per P just above the point where
+	// a collapse becomes visible: (i) the decimal values 1e-12 .. 1e-6 and 1 minus them with both float
+	// neighbours at N <= 30; (ii) P = 2^-j and 1-2^-j, j = 20..40, at N = ceil(1.5e-10 * 2^j) (capped, >= 2)
+	// and a second, larger N; k at both ends of the support only (these grids are short on purpose).
+	endKs := func(n int) []F64 {
+		ks := []float64{-1, math.Copysign(0, -1), 0, 0.5, 1, 2}
+		for _, k := range []float64{float64(n) - 2, float64(n) - 1, float64(n) - 0.5, float64(n), float64(n) + 1} {
+			if k > 2 {
+				ks = append(ks, k)
+			}
+		}
+		return toF64s(ks)
+	}
+	for _, q := range []float64{1e-12, 1e-11, 1e-10, 1e-9, 1e-6} {
+		for _, c := range []float64{q, 1 - q} {
+			for _, p := range []float64{c, math.Nextafter(c, 0), math.Nextafter(c, 1)} {
+				ns := []int{1, 2, 10, 20, 30}
+				if thorough {
+					ns = append(ns, 60, 61, 101)
+				}
+				for _, n := range ns {
+					emit(c06Case{Op: 0, N: n, P: F64(p), Ks: endKs(n)})
+				}
+			}
+		}
+	}
+	topJ, capN := 40, 170
+	if thorough {
+		topJ, capN = 41, 400
+	}
+	for j := 20; j <= topJ; j++ {
+		if !thorough && j < 30 && j%4 != 0 {
+			continue
+		}
+		n := int(math.Ceil(1.5e-10 * math.Ldexp(1, j)))
+		if n < 2 {
+			n = 2
+		}
+		ns := []int{n, 3 * n / 2, 61}
+		if j <= 30 {
+			ns = append(ns, 100)
+		}
+		if j <= 24 {
+			ns = append(ns, 200)
+		}
+		for _, m := range ns {
+			if m > capN {
+				m = capN
+			}
+			for _, p := range []float64{math.Ldexp(1, -j), 1 - math.Ldexp(1, -j)} {
+				emit(c06Case{Op: 0, N: m, P: F64(p), Ks: endKs(m)})
+			}
+		}
+	}
+	// (b4) ONE-PROCESS HISTORIES (seeded C06-7 class: a package-level cache of a per-distribution term
+	// under a lossy key, e.g. Lchoose(N,Draws) keyed N<<9|Draws, is wrong only for a distribution evaluated
+	// AFTER a colliding one in the same process). Every case of a group evaluates the other members of its
+	// group first (Pre), inside the same Run, so the replay of the single case reproduces the history. The
+	// members: pairs whose (N,Draws) collide under N<<b|Draws and N*2^b+Draws for b = 5..9 (Draws >= 2^b:
+	// Draws' = Draws mod 2^b, N' = N | Draws>>b resp. N + Draws>>b), the mirrored draws N-Draws the CDF's
+	// flipped branch asks for, equal N with other Draws, equal (N,Draws) with other K; binomials sharing N.
+	group := func(ds []c06Dist, cnt int) {
+		for i, m := range ds {
+			var pre []c06Dist
+			pre = append(pre, ds[i+1:]...)
+			pre = append(pre, ds[:i]...)
+			lo, hi := c06Support(m)
+			var mean, sd float64
+			if m.Op == 0 {
+				mean = float64(m.N) * float64(m.P)
+				sd = math.Sqrt(mean * (1 - float64(m.P)))
+			} else {
+				mean = float64(m.D) * float64(m.K) / float64(m.N)
+				sd = math.Sqrt(mean * float64(m.N-m.K) / float64(m.N))
+			}
+			emit(c06Case{Op: m.Op, N: m.N, P: m.P, K: m.K, D: m.D, Pre: pre, Ks: c06SampleKs(rng, lo, hi, mean, sd, cnt)})
+		}
+	}
+	group([]c06Dist{{Op: 1, N: 999, K: 30, D: 88}, {Op: 1, N: 999, K: 5, D: 600}, {Op: 1, N: 999, K: 300, D: 600},
+		{Op: 1, N: 999, K: 300, D: 88}, {Op: 1, N: 999, K: 30, D: 399}, {Op: 1, N: 1000, K: 300, D: 911}, {Op: 1, N: 998, K: 7, D: 600}}, 6)
+	for b := 5; b <= 9; b++ {
+		reps := 1
+		if thorough {
+			reps = 6
+		}
+		for r := 0; r < reps; r++ {
+			n0 := 2 * (300 + rng.Intn(190)) // even, 600..978
+			d0 := 512 + rng.Intn(n0-511)
+			if b < 9 {
+				d0 = (1+rng.Intn((n0>>uint(b))-1))<<uint(b) + rng.Intn(1<<uint(b))
+			}
+			m, r0 := d0>>uint(b), d0&(1<<uint(b)-1)
+			k1, k2, k3 := 1+rng.Intn(n0-1), 1+rng.Intn(40), n0/2
+			ds := []c06Dist{{Op: 1, N: n0, K: k1, D: d0}}
+			if n0|m != n0 && n0|m <= 1000 {
+				ds = append(ds, c06Dist{Op: 1, N: n0 | m, K: k2, D: r0}, c06Dist{Op: 1, N: n0 | m, K: k3, D: (n0 | m) - r0})
+			}
+			if n0+m <= 1000 {
+				ds = append(ds, c06Dist{Op: 1, N: n0 + m, K: k2, D: r0})
+			}
+			ds = append(ds, c06Dist{Op: 1, N: n0, K: k2, D: n0 - d0}, c06Dist{Op: 1, N: n0, K: k3, D: d0})
+			group(ds, 6)
+		}
+	}
+	group([]c06Dist{{Op: 0, N: 300, P: 0.25}, {Op: 0, N: 300, P: 0.5}, {Op: 0, N: 300, P: 0.75}, {Op: 0, N: 300, P: 0.125},
+		{Op: 0, N: 37, P: 0.5}, {Op: 0, N: 37, P: F64(1.0 / 1024)}, {Op: 0, N: 37, P: 1}, {Op: 0, N: 37, P: 0}}, 6)
+	// (b5) large Draws in general: Draws in 512..N, N up to 1000 (the random cases below draw Draws
+	// uniformly, but only 28 (600) of them)
+	nd := 12
+	if thorough {
+		nd = 150
+	}
+	for i := 0; i < nd; i++ {
+		n := 512 + rng.Intn(489)
+		d := 512 + rng.Intn(n-511)
+		k := rng.Intn(n + 1)
+		if i%3 == 0 {
+			k = rng.Intn(20)
+		}
+		m := c06Dist{Op: 1, N: n, K: k, D: d}
+		lo, hi := c06Support(m)
+		mean := float64(d) * float64(k) / float64(n)
+		emit(c06Case{Op: 1, N: n, K: k, D: d, Ks: c06SampleKs(rng, lo, hi, mean, math.Sqrt(mean*float64(n-k)/float64(n)), 20)})
+	}
 	// (c) random larger N up to 1000
-	nb, nh := 24, 40
+	nb, nh := 24, 28
 	if thorough {
 		nb, nh = 300, 600
 	}
